@@ -101,6 +101,22 @@ Theorem c01_source_never_polled_after_end :
     Encoder.s_after_end (snd (Encoder.run_body_src msg enc ser compress c r src extra)) = 0.
 Proof. exact source_never_polled_after_end. Qed.
 
+(* not vacuous, and not about a sibling model: [run_body_src] is Model/Encoder.v's machine over the
+   explicit source (remaining events, "has answered None", the Fuse's "dropped" flag, the ghost);
+   the theorem says its poll results ARE those of [run_body] - the run every theorem above and
+   the harness's model expressions are about - and the ghost [s_after_end] is part of the
+   observable compared with the strict streams of the harness (obs_roundtrip, fourth component).
+   The ghost is not inert: the same loop WITHOUT the Fuse's flag polls the ended source, counts
+   it and takes the explicit panic outcome *)
+Example c01_unfused_poll_is_counted :
+  Encoder.enc_loop_s (list N) Encoder.cenc Encoder.ser_raw (Encoder.compress_tbl [])
+    (Encoder.mkCfg None false None 8192 32768) [] [] true 0 false =
+    (Encoder.PPanic, Encoder.mkEnc [] None false, Encoder.mkSource [] true 1 false) /\
+  Encoder.enc_loop_s (list N) Encoder.cenc Encoder.ser_raw (Encoder.compress_tbl [])
+    (Encoder.mkCfg None false None 8192 32768) [] [] true 0 true =
+    (Encoder.PNone, Encoder.mkEnc [] None false, Encoder.mkSource [] true 0 true).
+Proof. split; reflexivity. Qed.
+
 (* ---- non-vacuity ---------------------------------------------------------------------------- *)
 (* a raw codec (a message is its own serialization) and a toy compressor (reverse) meet the
    two laws *)
